@@ -117,7 +117,7 @@ def runCase : CaseFn := fun c => Id.run do
         out := out.push s!"DIFF C06 case {c.num} line {ln}: ban store on disk {showNats real} ≠ bans recorded during the calls {showNats bansBefore}"
       continue
     if obs.startsWith "HANG" || obs.startsWith "PANIC" then
-      out := out.push s!"ORACLE-FAIL C06 case {c.num} line {ln}: [shape=no-answer] GetBlock did not return: {obs}"
+      out := out.push s!"ORACLE-FAIL C06 case {c.num} line {ln}: [shape=no-answer ] GetBlock did not return: {obs}"
       diverged := true
       continue
     match parseCall ws, parseObs obs with
@@ -128,7 +128,7 @@ def runCase : CaseFn := fun c => Id.run do
       if io.badProg || io.raw.endsWith "!" then
         out := out.push s!"DIFF C06 case {c.num} line {ln}: unexpected Progress value or request: {obs}"
       for tag in oracle call bansBefore cacheBefore io.obs do
-        out := out.push s!"ORACLE-FAIL C06 case {c.num} line {ln}: [shape={tag}] {op} => {obs}"
+        out := out.push s!"ORACLE-FAIL C06 case {c.num} line {ln}: [shape={tag} ] {op} => {obs}"
       bansBefore := io.obs.bans
       cacheBefore := io.obs.cache
       if !diverged then
